@@ -261,8 +261,16 @@ const char* check_all(bool quiescent)
                 for (int e = 0; e < g_nev; e++) {
                     if (!(is_release(g_ev[e]) && g_ev[e].ret != INF)) continue;
                     bool excused = false;
-                    for (int a = 0; a < g_nev; a++)
-                        if (g_ev[a].kind == ACTIVATE && g_ev[a].ret > g_ev[e].inv) excused = true;
+                    // re-activation excuses the hang only if it can have cleared the flag after the release event: it
+                    // must not have returned before the release was invoked, and - when the release completed while the
+                    // waiter was already waiting - it must not have returned before the waiter began either (an
+                    // activation that was over before the wait started is the one the waiter is waiting on)
+                    for (int a = 0; a < g_nev; a++) {
+                        if (g_ev[a].kind != ACTIVATE || g_ev[a].result == 0) continue;
+                        if (!(g_ev[a].ret > g_ev[e].inv)) continue;
+                        if (g_ev[e].ret > w.inv && !(g_ev[a].ret > w.inv)) continue;
+                        excused = true;
+                    }
                     if (!excused) {
                         snprintf(g_msg, sizeof g_msg,
                                  "lost wake-up: %s (fiber %d) is blocked for good although %s succeeded and the "
@@ -385,6 +393,27 @@ void make_items(const Options& o, std::vector<Item>& items)
     };
     add(seq2, 2);
     add(seq1, 3);
+    // four threads, one operation each: at least one waiter and two state-changing operations
+    hx::multisets((int)seq1.size(), 4, [&](const std::vector<int>& idx) {
+        int waiters = 0, mutators = 0;
+        for (int i : idx) {
+            int k = seq1[i][0];
+            if (k >= WAIT && k <= WAIT_FOR_ACT) waiters++;
+            if (k <= RESET) mutators++;
+        }
+        if (waiters != 1 || mutators < 3) return;
+        for (int act = 0; act < 2; act++) {
+            Prog p;
+            p.active = act;
+            for (int i : idx) p.threads.push_back(seq1[i]);
+            Item it;
+            it.name = text(p);
+            it.body = [p] { body(p); };
+            it.bounds = hx::tier_bounds(o, 2, 3);
+            it.bounds.S = 1;
+            items.push_back(it);
+        }
+    });
     if (thorough) {
         // three threads, one of which may issue two operations
         auto s3 = hx::sequences(NKIND, 2);
